@@ -32,6 +32,30 @@ Definition in_list (e : expr) (ids : list nat) : expr :=
 
 Definition unique_of (groups : list (list nat)) : stmt := SUnique (List.concat groups).
 
+(* ConstraintUniqueVecModel.build: for every pair of vectors (i < j, in order) an OR over the positions of "elements differ"
+   (the later position outermost on the left), the pairs AND-ed together left to right; the solver's And / Or are applied to
+   the 1-bit comparison nodes directly *)
+Definition vec_ne (a b : list nat) : option expr :=
+  match combine a b with
+  | [] => None
+  | (x, y) :: t =>
+    Some (fold_left (fun acc p => EBin Or (EBin Ne (EField (fst p)) (EField (snd p))) acc) t (EBin Ne (EField x) (EField y)))
+  end.
+Fixpoint vec_pairs (vs : list (list nat)) : list (option expr) :=
+  match vs with
+  | [] => []
+  | v :: t => map (vec_ne v) t ++ vec_pairs t
+  end.
+Definition unique_vec_of (vs : list (list nat)) : list stmt :=
+  match vec_pairs vs with
+  | Some e0 :: t =>
+    match fold_left (fun acc o => match acc, o with Some a, Some e => Some (EBin And a e) | _, _ => None end) t (Some e0) with
+    | Some e => [SExpr e]
+    | None => []
+    end
+  | _ => []
+  end.
+
 (* an expression without a meaning: a reference outside the list (sem = None) *)
 Definition EUndef : expr := EPart 0 0 1.
 Definition elem_at (ids : list nat) (i : nat) (off : Z) : expr :=
